@@ -9,6 +9,7 @@
 import Edn.Proofs.Fuel
 import Edn.Proofs.Number
 import Edn.Proofs.AllocBound
+import Edn.Proofs.AllocBoundQ7
 
 namespace Edn.Properties.C02
 open Edn.Model Edn.Proofs
@@ -121,5 +122,52 @@ example : ((readA ⟨true, true⟩ {} (fun _ => false)
 example : ((readA Cfg.core {} (fun _ => false) (Edn.Proofs.AllocBound.superDoc 7)).ast.reqs == 1537) = true
     ∧ ((Edn.Proofs.AllocBound.superDoc 7).length == 269) = true ∧ 5 * 269 + 269 / 64 + 9 < 1537 := by
   decide +kernel
+
+/-! ## Allocation requests of a fault-free read, no hypothesis on the input -/
+
+/-- **Polynomially many allocation requests, unconditionally.**  When no request fails and no tag
+    registry is installed, reading ANY input of `n` bytes makes at most
+    `16 * n³ + 4 * n + n / 64 + 8` logical allocation requests, in every configuration (default
+    builders, glibc's merge sort as `qsort`; `Edn.Proofs.AllocBoundQ.readA_reqs_cubic` is the
+    statement for every growth rule and every `qsort` that first hands each element to the
+    comparator at most once).
+
+    This complements `fault_free_read_of_decodable_strings_makes_linearly_many_requests`: that bound
+    is linear but needs every string literal to decode, because the decoded text of a literal whose
+    escapes do not decode is never cached and is requested again at every look of
+    `edn_value_equal` / `edn_value_hash` (`superDoc`).  Here every look is paid for instead: equality
+    of two trees makes at most two requests per pair of nodes, hashing one per node, so the duplicate
+    check of a collection with `S` nodes makes at most `1 + 4 * S²` requests and the metadata merge at
+    most `5 + 2 * (nodes of the form) * (nodes of the new keys)`; a value read from `c` bytes has at
+    most `2 * c` nodes; the byte that opens a form when `L + 1` bytes are left reserves
+    `16 * (L + 1)²` requests for those looks, and `16 * (1² + … + n²) ≤ 16 * n³`.
+
+    What it says about time is what the linear bound says (the allocator is entered polynomially
+    often), now for every input.  The exponent is not tight: every byte lies in at most
+    `maxNestingDepth` collections, so the true growth is quadratic (`superDoc k`: about `k⁴ / 2`
+    requests for about `5 * k²` bytes); the proof does not track the depth and settles for the cube. -/
+theorem fault_free_read_makes_polynomially_many_requests (cfg : Cfg) (opts : Opts) (input : Bytes)
+    (hreg : opts.registry = none) :
+    (readA cfg opts (fun _ => false) input).ast.reqs
+      ≤ 16 * input.length ^ 3 + 4 * input.length + input.length / 64 + 8 :=
+  Edn.Proofs.AllocBoundQ.readA_reqs_cubic' cfg opts input hreg
+
+/-- the same in the shape `c₃ * (n + 1)³ + c₀` -/
+theorem fault_free_read_makes_polynomially_many_requests' (cfg : Cfg) (opts : Opts) (input : Bytes)
+    (hreg : opts.registry = none) :
+    (readA cfg opts (fun _ => false) input).ast.reqs ≤ 16 * (input.length + 1) ^ 3 + 8 :=
+  Edn.Proofs.AllocBoundQ.readA_reqs_cubic'' cfg opts input hreg
+
+/-- `superDoc 3` (57 bytes, 73 requests): the hypothesis of the linear bound fails on it, the
+    unconditional bound applies (its only hypothesis, "no registry", holds of the default options) -/
+example : Edn.Proofs.AllocBound.stringsDecode Cfg.core (Edn.Proofs.AllocBound.superDoc 3) = false
+    ∧ ((Edn.Proofs.AllocBound.superDoc 3).length == 57) = true
+    ∧ ((readA Cfg.core {} (fun _ => false) (Edn.Proofs.AllocBound.superDoc 3)).ast.reqs == 73) = true
+    ∧ 73 ≤ 16 * 57 ^ 3 + 4 * 57 + 57 / 64 + 8 := by
+  decide +kernel
+example : (readA Cfg.core {} (fun _ => false) (Edn.Proofs.AllocBound.superDoc 3)).ast.reqs
+    ≤ 16 * (Edn.Proofs.AllocBound.superDoc 3).length ^ 3 + 4 * (Edn.Proofs.AllocBound.superDoc 3).length
+      + (Edn.Proofs.AllocBound.superDoc 3).length / 64 + 8 :=
+  fault_free_read_makes_polynomially_many_requests _ _ _ rfl
 
 end Edn.Properties.C02
